@@ -17,7 +17,8 @@ META = {
             "partially evaluated with a symbolic state and mocked path/solver for every (scheme, order, nf, direction): the matching "
             "factor applied at each threshold is proved to be 1 + sum_{n<order} a^n sum_k c_nk L^k with L the log of the ratio of the "
             "quark being crossed, the table taken at the nf of the lower patch, upward or its perturbative inverse downward (so a "
-            "round trip is the identity through the implemented order), and to be exactly 1 at LO, and at NLO for unit ratio.",
+            "round trip is the identity through the implemented order), and to be exactly 1 at LO, and at NLO for unit ratio."
+            " With the reference point ON a matching scale (empty first segment) the evolution beyond the wall starts from a_ref times the matching factor.",
     "note": "Decides the formulas and wiring of the matching, not the numerical coupling. Literature constants are decimal in the "
             "source (340.729...), compared within 2e-6 relative; rational entries exactly.",
     "technique": "partial evaluation with mocked collaborators + RG-invariance derivation (sympy linear solve) + polynomial identity testing",
